@@ -393,6 +393,7 @@ fn worker_prec_race(iters: u64, nthreads: usize) -> J {
 fn worker_regstorm(doc: &J) -> J {
     let threads = doc["threads"].as_u64().unwrap_or(4).max(2) as usize;
     let iters = doc["iters"].as_u64().unwrap_or(2000) as usize;
+    let budget = Duration::from_millis(doc["budget_ms"].as_u64().unwrap_or(6000));
     let barrier = Arc::new(Barrier::new(threads + 1));
     let stop = Arc::new(AtomicBool::new(false));
     let mut hs = vec![];
@@ -400,7 +401,13 @@ fn worker_regstorm(doc: &J) -> J {
         let b = barrier.clone();
         hs.push(std::thread::spawn(move || {
             b.wait();
+            let t0 = Instant::now();
             for i in 0..iters {
+                // bounded by wall clock too: slowness never becomes a verdict (the first 50
+                // registrations, which the final check relies on, are always made)
+                if i >= 50 && i % 64 == 0 && t0.elapsed() > budget {
+                    break;
+                }
                 let name = format!("vh_s{}_{}", t, i % 50);
                 match t % 4 {
                     0 => expression_engine::register_infix_op(&name, 100, expression_engine::InfixOpType::CALC, expression_engine::InfixOpAssociativity::LEFT, Arc::new(|_, _| Ok(Value::from(-1)))),
@@ -502,7 +509,16 @@ fn worker_freshrace(doc: &J) -> J {
             (lost, seen_before)
         }));
     }
+    // the amount of work is bounded by a wall-clock budget as well (a loaded machine explores
+    // fewer words; it never turns slowness into a verdict)
+    let budget = Duration::from_millis(doc["budget_ms"].as_u64().unwrap_or(6000));
+    let t0 = Instant::now();
+    let mut words_done = 0usize;
     for i in 0..words {
+        if t0.elapsed() > budget {
+            break;
+        }
+        words_done = i + 1;
         cur.store(i, Ordering::SeqCst);
         // let the readers meet the spelling as a plain name first
         for _ in 0..(i % 7) {
@@ -531,14 +547,14 @@ fn worker_freshrace(doc: &J) -> J {
     }
     // final observation from this thread: every word is an operator now
     let mut final_lost = vec![];
-    for i in 0..words {
+    for i in 0..words_done {
         let text = text_of(&kind, i);
         let r = guard(|| execute(&text, Context::new()).map(|v| V::from_value(&v).key()).map_err(|e| e.to_string()));
         if !matches!(&r, Ok(Ok(k)) if k == "n-1") && final_lost.len() < 5 {
             final_lost.push(json!({"word": format!("vh_w{}", i), "program": text, "result": format!("{:?}", r)}));
         }
     }
-    json!({"lost": lost, "final_lost": final_lost, "parses_before_registration": before, "reader_died": hung})
+    json!({"lost": lost, "final_lost": final_lost, "parses_before_registration": before, "reader_died": hung, "words_registered": words_done})
 }
 
 pub fn worker() -> i32 {
@@ -700,7 +716,7 @@ fn run_child_json(scenario: &J, env: &Env, st: &mut Stats) -> Result<J, Failure>
 
 /// concurrent registrations of all four kinds
 pub fn run_regstorm(threads: usize, iters: u64, env: &Env, st: &mut Stats) -> CaseResult {
-    let scenario = json!({"mode": "regstorm", "threads": threads, "iters": iters});
+    let scenario = json!({"mode": "regstorm", "threads": threads, "iters": iters, "budget_ms": env.tier.pick(6_000, 20_000)});
     st.eval();
     st.hist("regstorm");
     st.nontrivial(&format!("regstorm:{}", threads));
@@ -720,7 +736,7 @@ pub fn run_regstorm(threads: usize, iters: u64, env: &Env, st: &mut Stats) -> Ca
 
 /// fresh word operators are registered while other threads already parse programs spelling them
 pub fn run_freshrace(kind: &str, readers: usize, words: u64, env: &Env, st: &mut Stats) -> CaseResult {
-    let scenario = json!({"mode": "freshrace", "kind": kind, "readers": readers, "words": words});
+    let scenario = json!({"mode": "freshrace", "kind": kind, "readers": readers, "words": words, "budget_ms": env.tier.pick(6_000, 20_000)});
     st.eval();
     st.hist(&format!("freshrace:{}", kind));
     let doc = run_child_json(&scenario, env, st)?;
@@ -729,6 +745,7 @@ pub fn run_freshrace(kind: &str, readers: usize, words: u64, env: &Env, st: &mut
         st.nontrivial(&format!("freshrace:{}:{}", kind, readers));
     }
     st.hist_add("freshrace:parses-before-registration", doc["parses_before_registration"].as_u64().unwrap_or(0));
+    st.hist_add("freshrace:words-registered", doc["words_registered"].as_u64().unwrap_or(0));
     for key in ["lost", "final_lost"] {
         if let Some(l) = doc[key].as_array().and_then(|a| a.first()) {
             return Err(Failure::new(
